@@ -301,6 +301,38 @@ fn main() {
             for n in ln {
                 if let Some(pd) = resource(n) { cases.push(format!("lee ; {}", link_str(&Link::from_pd_code(pd)))); }
             }
+            // knot diagrams whose crossing list contains an already resolved (orientation-compatible) entry in front
+            // of unresolved crossings: two edges e, f are subdivided and H[e', e, f, f'] is inserted at every list
+            // position >= 1; ss must be that of the plain diagram (canonical cycles are indexed by UNRESOLVED crossings)
+            for (name, pd) in table_knots() {
+                if !["3_1", "4_1", "5_2"].contains(&name) { continue; }
+                for mir in [false, true] {
+                    let l0 = if mir { Link::from_pd_code(pd.clone()).mirror() } else { Link::from_pd_code(pd.clone()) };
+                    let mut es: Vec<usize> = l0.edges().into_iter().collect();
+                    es.sort();
+                    let (e, f) = (es[0], es[3]);
+                    let mx = *es.last().unwrap();
+                    let n = l0.data().len();
+                    let positions: Vec<usize> = if thorough { (1..=n).collect() } else { vec![1, n / 2 + 1, n] };
+                    for pos in positions {
+                        let (e2, f2) = (mx + 1, mx + 2);
+                        let (mut se, mut sf) = (0, 0);
+                        let mut data: Vec<yui_link::Crossing> = l0.data().iter().map(|x| {
+                            let mut ed = x.edges().clone();
+                            for a in ed.iter_mut() {
+                                if *a == e { se += 1; if se == 2 { *a = e2; } } else if *a == f { sf += 1; if sf == 2 { *a = f2; } }
+                            }
+                            yui_link::Crossing::new(x.ctype(), ed)
+                        }).collect();
+                        if (se, sf) != (2, 2) { continue; }
+                        data.insert(pos.min(data.len()), yui_link::Crossing::new(yui_link::CrossingType::H, [e2, e, f, f2]));
+                        let m = Link::new(data);
+                        for c in [2, 3] {
+                            cases.push(format!("ss {} ; {} ; {}", c, link_str(&l0), link_str(&m)));
+                        }
+                    }
+                }
+            }
             cases.push(format!("lee ; {}", link_str(&Link::empty())));
             cases.push(format!("lee ; {}", link_str(&Link::unknot())));
             // the value of the invariant against the definition-level oracle (own random stream: the cases above are unchanged)
